@@ -375,8 +375,8 @@ def check_c(ck, repo):
             else:
                 bad.append(t)
     ck.verdict(okd == 2 and not bad, "C16.c", pd, f"input table: {okd} numbering loops {bad}", "input columns are numbered by their position", "input ports are not numbered by column position")
-    info_ok = any(re.match(r"^\w+ = \[dict\(schema_after=data\)\]$", t) for t in st) and any(re.match(r"^(\w+)\.extend\(_pipeline_info\(pipe, data, context=dict\(n=0, names=names\)\)\)$", t) for t in st)
-    ck.verdict(info_ok and src_of(L.iter.args[0]) in [t.split(" = ")[0] for t in st if "schema_after=data" in t], "C16.c", pd, "info = [schema] + _pipeline_info(...)", "line 0 is the input schema, the steps follow in pipeline order", "the list of lines is not [input schema] + steps")
+    info_ok = any(re.match(r"^\w+ = \[(dict\(schema_after=data\)|\{'schema_after': data\})\]$", t) for t in st) and any(re.match(r"^(\w+)\.extend\(_pipeline_info\(pipe, data, context=(dict\(n=0, names=names\)|\{'n': 0, 'names': names\})\)\)$", t) for t in st)
+    ck.verdict(info_ok and src_of(L.iter.args[0]) in [t.split(" = ")[0] for t in st if "schema_after=data" in t or "'schema_after': data" in t], "C16.c", pd, "info = [schema] + _pipeline_info(...)", "line 0 is the input schema, the steps follow in pipeline order", "the list of lines is not [input schema] + steps")
 
 
 _LIST_MUTATORS = {"append", "extend", "insert", "remove", "pop", "clear", "sort", "reverse", "update", "setdefault", "popitem", "__setitem__", "__delitem__"}
